@@ -102,6 +102,12 @@ def make_data(c):
     if c["nan"]:
         X = X.astype(float)
         X[int(g.integers(n)), int(g.integers(p))] = np.nan
+        if (c["seed"] // 2) % 2:  # a missing value is a missing value in single precision as well
+            X = X.astype(np.float32)
+    if c["seed"] % 3 == 0:
+        import pandas as pd
+
+        X = pd.DataFrame(X)
     return X
 
 
